@@ -242,6 +242,83 @@ func vfGenMutateGenuine(r *rand.Rand, n int, genuine [][]byte) []vfHostile {
 	return out
 }
 
+// vfGenFreshDuplicates: every plaintext handshake record seen so far once more under a fresh record sequence
+// number — what a retransmission of the same fragments looks like. Harmless by construction (class "benign").
+func vfGenFreshDuplicates(genuine [][]byte, cidLen int) []vfHostile {
+	var out []vfHostile
+	// The numbers sit a little above the sender's highest one: far-away numbers would push the (unauthenticated)
+	// epoch-0 replay window past the genuine records that follow, which is a different, protocol-inherent attack.
+	seq := uint64(0)
+	for _, d := range genuine {
+		if recs, ok := vfParseDatagram(d, cidLen); ok {
+			for _, rc := range recs {
+				if !rc.Unified && rc.Epoch == 0 && rc.Seq > seq {
+					seq = rc.Seq
+				}
+			}
+		}
+	}
+	seq += 24
+	for _, d := range genuine {
+		recs, ok := vfParseDatagram(d, cidLen)
+		if !ok {
+			continue
+		}
+		for _, rc := range recs {
+			if rc.Unified || rc.Type != 22 || rc.Epoch != 0 || len(out) >= 24 {
+				continue
+			}
+			seq++
+			out = append(out, vfHostile{Data: vfLegacyRecord(22, rc.Version, 0, seq, nil, -1, rc.Body), Class: "benign", Note: "fresh-seq-duplicate"})
+		}
+	}
+
+	return out
+}
+
+// vfGenTruncatedMessages: for every whole plaintext handshake message of the datagram d, the same message cut
+// at every length with consistent length fields (well framed, short body), under fresh record sequence numbers.
+func vfGenTruncatedMessages(d []byte, cidLen int, step int) []vfHostile {
+	var out []vfHostile
+	recs, ok := vfParseDatagram(d, cidLen)
+	if !ok {
+		return nil
+	}
+	seq := uint64(0)
+	for _, rc := range recs {
+		if !rc.Unified && rc.Epoch == 0 && rc.Seq > seq {
+			seq = rc.Seq
+		}
+	}
+	seq += 20 // just above the genuine numbers (see vfGenFreshDuplicates); one truncation is used per case
+	for _, rc := range recs {
+		if rc.Unified || rc.Type != 22 || rc.Epoch != 0 {
+			continue
+		}
+		body := rc.Body
+		for len(body) > 0 {
+			h, rest, ok := vfParseHS(body)
+			if !ok {
+				break
+			}
+			body = rest
+			if h.FragOff != 0 || h.FragLen != h.Length {
+				continue
+			}
+			st := 1
+			if len(h.Body) > 200 {
+				st = step
+			}
+			for k := 0; k < len(h.Body); k += st {
+				frag := vfHSFragment(h.Type, uint32(k), h.MsgSeq, 0, uint32(k), h.Body[:k])
+				out = append(out, vfHostile{Data: vfLegacyRecord(22, rc.Version, 0, seq, nil, -1, frag), Class: "plaintext", Note: fmt.Sprintf("truncated %s to %d of %d", vfHSName(h.Type), k, len(h.Body))})
+			}
+		}
+	}
+
+	return out
+}
+
 // vfClassify fills in "?" classes: unparseable per the library's own functions, protected-only
 // datagrams (every record non-zero epoch / unified, none of type change_cipher_spec) as failedauth
 // (the caller guarantees they are not authentic), everything else plaintext.
